@@ -5,10 +5,13 @@ import (
 	"fmt"
 	"sync/atomic"
 
+	r "github.com/Trisia/randomness"
+
 	"verif/calls"
 	"verif/common"
 	"verif/e2"
 	"verif/enum"
+	"verif/refmodel"
 )
 
 func Run(ctx *common.Ctx) int {
@@ -112,6 +115,67 @@ func Run(ctx *common.Ctx) int {
 	ev, ok := d.S2(ctx, specs, !quick, 1100, func(n int) []int { return []int{32} })
 	cmp.Count("S2 periodic patterns with bit flips", ev)
 	exhaustive = exhaustive && ok
+	// byte-oriented entry points against the reference on the MSB-first expansion: every 1- and 2-byte string,
+	// fillers of 3..64, 125, 128, 1121, 2500 bytes
+	var bEvals int64
+	byteCheck := func(data []byte, desc func() interface{}) {
+		bits := refmodel.Bits(data)
+		chk := func(name string, f func() (float64, float64), wp, wq float64) {
+			var p, q float64
+			atomic.AddInt64(&bEvals, 1)
+			if pv := common.Catch(func() { p, q = f() }); pv != nil {
+				cmp.Panic(name, pv, desc())
+				return
+			}
+			cmp.PQ(name, uint64(len(name)), p, q, wp, wq, desc)
+		}
+		for _, fw := range []bool{true, false} {
+			fw := fw
+			wp, wq := refmodel.Cusum(bits, fw)
+			chk(fmt.Sprintf("CumulativeTestBytes(forward=%v)", fw), func() (float64, float64) { return r.CumulativeTestBytes(data, fw) }, wp, wq)
+		}
+		for _, k := range []int{3, 7, 15} {
+			k := k
+			if len(bits) >= 8 && len(bits) > k {
+				wp, wq := refmodel.BinaryDerivative(bits, k)
+				chk(fmt.Sprintf("BinaryDerivativeTestBytes(k=%d)", k), func() (float64, float64) { return r.BinaryDerivativeTestBytes(data, k) }, wp, wq)
+			}
+		}
+		for _, dd := range []int{1, 2, 8, 16, 32} {
+			dd := dd
+			if len(bits) >= 16 && len(bits) > dd {
+				wp, wq := refmodel.Autocorrelation(bits, dd)
+				chk(fmt.Sprintf("AutocorrelationTestBytes(d=%d)", dd), func() (float64, float64) { return r.AutocorrelationTestBytes(data, dd) }, wp, wq)
+			}
+		}
+	}
+	common.ParFor(256, func(hi int) {
+		byteCheck([]byte{byte(hi)}, func() interface{} { return map[string]interface{}{"bytes": fmt.Sprintf("%02x", hi)} })
+		for lo := 0; lo < 256; lo++ {
+			d2 := []byte{byte(hi), byte(lo)}
+			byteCheck(d2, func() interface{} { return map[string]interface{}{"bytes": fmt.Sprintf("%x", d2)} })
+		}
+	})
+	var blens []int
+	for l := 3; l <= 64; l++ {
+		blens = append(blens, l)
+	}
+	blens = append(blens, 125, 128, 1121, 2500)
+	common.ParFor(len(blens)*8, func(i int) {
+		L, k := blens[i/8], i%8
+		data := enum.FillerBytes(L, uint64(ctx.Seed)+uint64(L*8+k))
+		if k >= 4 {
+			// a walk that hovers around zero: small excursions on both sides
+			for j := range data {
+				data[j] = []byte{0xAB, 0x03, 0xCC, 0x35, 0xA6, 0x59}[(j+k)%6]
+			}
+			data[L/2] ^= byte(1 << uint(k))
+		}
+		byteCheck(data, func() interface{} {
+			return map[string]interface{}{"bytes": L, "seed": ctx.Seed + int64(L*8+k), "hovering": k >= 4}
+		})
+	})
+	cmp.Count("byte entry points (cumulative sums, binary derivative, autocorrelation): every 1-,2-byte string; fillers and hovering walks of 3..64, 125, 128, 1121, 2500 bytes", bEvals)
 	fev, fok := d.Fillers(ctx, e2.WordLengths(1000, 20000, 20032), 3, uint64(ctx.Seed))
 	cmp.Count("fillers and biased fillers at every n in 33..200, around powers of two, 1000, 20000", fev)
 	exhaustive = exhaustive && fok
